@@ -185,6 +185,18 @@ pub fn run(args: &[String]) -> i32 {
             continue;
         }
         let ser = match guarded(|| m.to_mt_message()) { Ok(s) => s, Err(p) => { push(format!("C10|panic-on-serialise|{}", fault), json!({"panic": p})); continue; } };
+        // the error-collecting twin of the typed API takes the same text as each block
+        {
+            use swift_mt_message::errors::ParseResult;
+            let twin = guarded(|| SwiftParser::new().parse_with_errors::<MT103>(&built.text));
+            let twin_ser = match twin {
+                Ok(Ok(ParseResult::Success(t))) | Ok(Ok(ParseResult::PartialSuccess(t, _))) => guarded(|| t.to_mt_message()).ok(),
+                _ => None,
+            };
+            if twin_ser.as_ref() != Some(&ser) {
+                push(format!("C10|parse_with_errors|differs-from-parse|b3={}|b5={}", !built.b3.is_empty(), !built.b5.is_empty()), json!({"parse": ser, "parse_with_errors": twin_ser}));
+            }
+        }
         // C02 on the envelope: the serialised text is accepted again, gives an equal message, and is a fixed point
         {
             let sh = case["b2"].as_str().unwrap_or("");
